@@ -107,6 +107,50 @@ def hard_float(L, k, j):
     return x
 
 
+_WIDTH = {}
+
+
+def int_width(cls, path):
+    """(unsigned bits, signed?) the wire format accepts for an integer attribute, found by packing; None when the class
+    cannot be packed with that attribute set (then the attribute's range is unknown)"""
+    key = (cls.__name__, path)
+    if key in _WIDTH:
+        return _WIDTH[key]
+    res = None
+    try:
+        def packs(val):
+            m = cls()
+            set_path(m, path, val)
+            try:
+                m.pack()
+                return True
+            except Exception:
+                return False
+        if packs(1):
+            for bits in (64, 32, 16, 8):
+                if packs(2 ** bits - 1) and not packs(2 ** bits):
+                    res = (bits, False); break
+                if packs(2 ** (bits - 1) - 1) and packs(-2 ** (bits - 1)) and not packs(2 ** (bits - 1)):
+                    res = (bits, True); break
+    except Exception:
+        res = None
+    _WIDTH[key] = res
+    return res
+
+
+def int_value(cls, path, L, i, wire):
+    """pairwise distinct over the messages; spans the whole range of the wire field, top bit and minimum included,
+    mixed with small values in the same list"""
+    small = (7 * L + i) % 100 + 1
+    w = int_width(cls, path)
+    if w is None:
+        return small if wire else (2 ** 31 + (7 * L + i) % 200 + 1)
+    bits, signed = w
+    if signed:
+        return [small, 2 ** (bits - 1) - 1 - i, -2 ** (bits - 1) + i, -small][i % 4]
+    return [small, 2 ** (bits - 1) + i, 2 ** bits - 1 - i, 2 ** (bits // 2) + i][i % 4]
+
+
 def wire_float(L, k, j):
     """like hard_float but small enough for every fixed-point wire field (centi-units in int16 etc.)"""
     return float((13 * L + k) % 250) + FRACTIONS[(L + k + j) % len(FRACTIONS)]
@@ -153,7 +197,7 @@ def build(cls, n, nan, variant, wire=False):
             elif isinstance(v, (bool, np.bool_)):
                 nv = bool((L + i) % 2 == 0)
             elif isinstance(v, (int, np.integer)):
-                nv = ((7 * L + i) % 100 + 1) if wire else (2 ** 31 + (7 * L + i) % 200 + 1)   # beyond int32 / binary32-exact integers; fits uint32
+                nv = int_value(cls, path, L, i, wire)
             elif isinstance(v, (float, np.floating)):
                 nv = wire_float(L, i, 0) if wire else hard_float(L, i, 0)
             elif isinstance(v, np.ndarray) and v.dtype.kind in 'fiu' and v.size > 0:
@@ -172,27 +216,59 @@ def leaf_snapshot(m):
 
 
 def numeric(v):
-    """canonical numeric value of a field, or None when the field is not numeric"""
+    """canonical numeric value of a field (integers stay exact Python ints in object arrays), or None when not numeric"""
     if isinstance(v, Timestamp):
         return np.float64(float(v))
     if is_enum(v):
-        return np.float64(int(v))
-    if isinstance(v, (bool, np.bool_, int, np.integer, float, np.floating)):
+        return np.array(int(v), dtype=object)
+    if isinstance(v, (bool, np.bool_)):
+        return np.array(int(v), dtype=object)
+    if isinstance(v, (int, np.integer)):
+        return np.array(int(v), dtype=object)
+    if isinstance(v, (float, np.floating)):
         return np.float64(v)
-    if isinstance(v, np.ndarray) and v.dtype.kind in 'fiub':
+    if isinstance(v, np.ndarray) and v.dtype.kind in 'iub':
+        return v.astype(object)
+    if isinstance(v, np.ndarray) and v.dtype.kind == 'f':
         return v.astype(np.float64)
     if isinstance(v, (list, tuple)) and len(v) > 0 and all(isinstance(x, (int, float, np.integer, np.floating)) and
                                                            not isinstance(x, bool) for x in v):
-        return np.array(v, dtype=np.float64)       # a decoded message holds construct ListContainers where Python code holds arrays
+        # a decoded message holds construct ListContainers where Python code holds arrays
+        return np.array([int(x) if isinstance(x, (int, np.integer)) else float(x) for x in v], dtype=object)
     return None
+
+
+def _eq(g, w):
+    """exact equality of two Python numbers: integers as integers (no rounding through binary64), NaN = NaN"""
+    if isinstance(g, bool):
+        g = int(g)
+    if isinstance(w, bool):
+        w = int(w)
+    gi, wi = isinstance(g, int), isinstance(w, int)
+    if gi and wi:
+        return g == w
+    if gi or wi:
+        f, i = (w, g) if gi else (g, w)
+        try:
+            f = float(f)
+        except Exception:
+            return False
+        return (not math.isnan(f)) and (not math.isinf(f)) and f.is_integer() and int(f) == i
+    try:
+        g, w = float(g), float(w)
+    except Exception:
+        return False
+    return g == w or (math.isnan(g) and math.isnan(w))
 
 
 def same(a, b):
     try:
-        a = np.asarray(a, dtype=np.float64); b = np.asarray(b, dtype=np.float64)
+        a = np.asarray(a); b = np.asarray(b)
+        if a.shape != b.shape:
+            return False
+        return all(_eq(g, w) for g, w in zip(a.ravel().tolist(), b.ravel().tolist()))
     except Exception:
         return False
-    return a.shape == b.shape and bool(np.array_equal(a, b, equal_nan=True))
 
 
 def time_axes(shape_n, shape_n1):
@@ -509,26 +585,31 @@ def run_history(req):
     h = req['history']
     cls = CLASSES[h['cls']]
     n, t0, dt, op = h['n'], h['t0'], h['dt'], h['op']
-    pool = build(cls, 2 * n + 2, set(), 0)
+    pool = build(cls, 2 * n + 4, set(), 0)
     for i, m in enumerate(pool[:n + 1]):
         set_times(m, t0 + i * dt)
-    for i, m in enumerate(pool[n + 1:]):
-        set_times(m, t0 + h.get('shift', dt) + i * dt)
     md = MessageData(cls.MESSAGE_TYPE, None)
     for m in pool[:n]:
         md.add_message(m)
     md.to_numpy(remove_nan_times=True)
     issues = []
+    prev_count, prev_first, prev_last = len(md.messages), (get_time(md.messages[0]) if n else None), (get_time(md.messages[-1]) if n else None)
+    fresh = pool[n + 1:]                  # messages not in the list yet, times shifted
+    for i, m in enumerate(fresh):
+        set_times(m, t0 + (i + 0.5) * dt)  # strictly between the existing epochs
+    partner = None
     if op == 'slide':
         md.messages = md.messages[1:] + [pool[n]]
     elif op == 'slide-add':
         md.messages.pop(0)
         md.add_message(pool[n])
     elif op == 'replace-shifted':
-        md.messages = pool[n + 1:2 * n + 1]
+        for i, m in enumerate(fresh):
+            set_times(m, t0 + h.get('shift', dt) + i * dt)
+        md.messages = fresh[:n]
     elif op == 'replace-middle':
-        # same first and last objects, different ones in between (times of the replaced ones kept)
-        mid = pool[n + 1:2 * n - 1]
+        # same first and last objects, different ones in between (times of the replaced ones kept): SAME count
+        mid = fresh[:max(n - 2, 0)]
         for m, old in zip(mid, md.messages[1:-1]):
             set_times(m, get_time(old))
         md.messages = [md.messages[0]] + mid + [md.messages[-1]]
@@ -536,6 +617,45 @@ def run_history(req):
         md.add_message(pool[n])
     elif op == 'same':
         pass
+    # ---- a different number of messages between an unchanged first and last one, reached in every way a list can change
+    elif op == 'assign-sublist-keep-ends':
+        md.messages = [md.messages[0]] + md.messages[2:-1:2] + [md.messages[-1]]
+    elif op == 'assign-longer-keep-ends':
+        md.messages = [md.messages[0]] + fresh[:2] + md.messages[1:]
+    elif op == 'slice-assign':
+        md.messages[1:-1] = fresh[:1]
+    elif op == 'slice-assign-longer':
+        md.messages[1:-1] = fresh[:n + 1]
+    elif op == 'del-middle':
+        del md.messages[1]
+    elif op == 'pop-middle':
+        md.messages.pop(len(md.messages) // 2)
+    elif op == 'insert-middle':
+        md.messages.insert(1, fresh[0])
+    elif op == 'extend':
+        md.messages.extend(fresh[:2])
+    elif op == 'reverse':
+        md.messages.reverse()
+    elif op == 'sort-descending':
+        md.messages.sort(key=get_time, reverse=True)
+    elif op == 'clear':
+        md.messages.clear()
+    elif op in ('align-drop', 'align-insert'):
+        # the list is replaced by DataLoader.time_align_data (first and last epoch shared with the partner type)
+        from fusion_engine_client.analysis.data_loader import DataLoader, TimeAlignmentMode
+        pcls = CLASSES['PoseMessage'] if cls.__name__ != 'PoseMessage' else CLASSES['PoseAuxMessage']
+        partner = MessageData(pcls.MESSAGE_TYPE, None)
+        if op == 'align-drop':
+            ptimes = [get_time(m) for m in md.messages[::2]] + [get_time(md.messages[-1])]
+        else:
+            ptimes = [get_time(md.messages[0])] + [t0 + (i + 0.5) * dt for i in range(2)] + [get_time(md.messages[-1])]
+        for t in sorted(set(ptimes)):
+            pm = pcls(); pm.p1_time = Timestamp(t); partner.add_message(pm)
+        data = {cls.MESSAGE_TYPE: md, pcls.MESSAGE_TYPE: partner}
+        DataLoader.to_numpy(data)
+        DataLoader.time_align_data(data, TimeAlignmentMode.DROP if op == 'align-drop' else TimeAlignmentMode.INSERT)
+    same_count = len(md.messages) == prev_count
+    ends_same = bool(md.messages) and prev_first is not None and get_time(md.messages[0]) == prev_first and get_time(md.messages[-1]) == prev_last
     try:
         md.to_numpy(remove_nan_times=True)
     except Exception as e:
@@ -552,7 +672,8 @@ def run_history(req):
     if bad:
         issues.append({'kind': 'arrays-do-not-describe-the-current-messages', 'key': '*', 'op': op, 'stale_keys': bad[:6],
                        't0': t0, 'dt': dt, 'n': n,
-                       'first_last_time_changed': op not in ('replace-middle', 'same')})
+                       'first_last_time_changed': not ends_same, 'same_count': same_count,
+                       'count_before': prev_count, 'count_now': len(md.messages)})
     return {'issues': issues, 'arrays': {}, 'stats': {'history_arrays': sum(1 for v in want.values() if isinstance(v, np.ndarray))},
             'keys': list(want)}
 
@@ -564,7 +685,7 @@ def listing():
         res.append({'name': name, 'module': c.__module__.split('.')[-1],
                     'own': 'to_numpy' in c.__dict__, 'resolved': c.to_numpy.__func__.__qualname__,
                     'fields': sorted(vars(d)), 'has_details': is_obj(vars(d).get('details')),
-                    'has_p1': any(p[-1] == 'p1_time' for p, _ in leaves(d)), 'synthetic': name in SYNTHETIC,
+                    'has_p1': any(p[-1] == 'p1_time' for p, _ in leaves(d)), 'synthetic': name in SYNTHETIC, 'aligned_by_code': 'p1_time' in vars(d),
                     'has_enum_preprocessing': any(p[-1] in ('calibration_stage', 'measurement_time_source') for p, _ in leaves(d))})
     return {'classes': res}
 
